@@ -7,7 +7,7 @@ from typing import Any, Dict, List, Optional, Union
 import jsonpath
 from jsonpath import JSONPathEnvironment
 
-from vlib.hs import P, kf, ok, why
+from vlib.hs import P, alist, drive, kf, ok, why
 
 QTEXT = P.get("qtext", "$.xs[?@.a == $.k]")
 ENV_ON = JSONPathEnvironment(filter_caching=True)
@@ -21,6 +21,7 @@ SCHED = P.get("sched", 4)
 MAXN = P.get("maxn", 2)
 TAKE = P.get("take")
 SFIX = P.get("sfix")
+ROUTE = P.get("route")
 OI = Optional[int]
 KT = {"oi": Optional[int], "nbi": Union[None, bool, int]}[P.get("kleaf", "oi")]
 
@@ -182,3 +183,31 @@ def text_reuse(ki: int, ai: int, n: int, again_other: bool) -> bool:
             m.obj.append({"a": k})
     second = sig((C_OFF if again_other else C_ON).finditer(text, filter_context=ctx))
     return ok(why(second == exp, "second evaluation of the same text sees the caller's edits", second, exp))
+
+
+def _run(c: Any, doc: Any, ctx: Any, use_async: bool) -> List[Any]:
+    if use_async:
+        return sig(drive(alist(drive(c.finditer_async(doc, filter_context=ctx)))))
+    return sig(c.finditer(doc, filter_context=ctx))
+
+
+def same_doc(k1: OI, a0: OI, n: int, ck1: OI, ck2: OI, edit: bool, use_async: bool) -> bool:
+    """One compiled query and ONE document object: evaluated under a filter context, then under another, then once more
+    after the caller edited the document in place. Each result equals what the uncached environment returns at that moment
+    (the result is a function of query, document and context - not of which object was seen last).
+
+    pre: 0 <= n <= MAXN
+    pre: ROUTE is None or use_async == (ROUTE == "async")
+    post: _
+    """
+    doc = mkdoc(k1, a0, 1, a0, n + 1)
+    c1, c2 = {"k": ck1, "xs": [ck1]}, {"k": ck2, "xs": [ck2, 1]}
+    r1, e1 = _run(C_ON, doc, c1, use_async), _run(C_OFF, doc, c1, use_async)
+    r2, e2 = _run(C_ON, doc, c2, use_async), _run(C_OFF, doc, c2, use_async)
+    if not why(r1 == e1, "first context", r1, e1) or not why(r2 == e2, "same document, second filter context", r2, e2):
+        return ok(False)
+    if edit:
+        doc["k"] = ck1
+        doc["xs"][0]["a"] = ck2
+    r3, e3 = _run(C_ON, doc, c2, use_async), _run(C_OFF, doc, c2, use_async)
+    return ok(why(r3 == e3, "same document object after an in-place edit", r3, e3))
